@@ -129,27 +129,29 @@ def shiftLoop (regs : Array Nat) : Nat → Nat → Nat × Nat
     let n := regs.count (cm + 1)
     if n = 0 then shiftLoop regs fuel (cm + 1) else (cm + 1, n)
 
-/-- curMin / numAtCurMin bookkeeping after a register went from `old` to a bigger value -/
-def bumpCounts (s : St ν) (old : Nat) : St ν :=
-  match s.tt with
+/-- curMin / numAtCurMin bookkeeping after a register went from `old` to a bigger value (`regs` = the new registers) -/
+def bumpPair (tt : TType) (regs : Array Nat) (curMin numAtCurMin old : Nat) : Nat × Nat :=
+  match tt with
   | .h4 =>
-    if old = s.curMin then
-      if s.numAtCurMin - 1 = 0 then
-        let r := shiftLoop s.regs 64 s.curMin
-        { s with curMin := r.1, numAtCurMin := r.2 }
-      else { s with numAtCurMin := s.numAtCurMin - 1 }
-    else s
-  | _ => if old = 0 then { s with numAtCurMin := s.numAtCurMin - 1 } else s
+    if old = curMin then
+      if numAtCurMin - 1 = 0 then shiftLoop regs 64 curMin else (curMin, numAtCurMin - 1)
+    else (curMin, numAtCurMin)
+  | _ => if old = 0 then (curMin, numAtCurMin - 1) else (curMin, numAtCurMin)
+
+def bumpCounts (s : St ν) (old : Nat) : St ν :=
+  let r := bumpPair s.tt s.regs s.curMin s.numAtCurMin old
+  { s with curMin := r.1, numAtCurMin := r.2 }
+
+/-- register `slot` goes from `old` to the bigger `nv` -/
+def raiseReg (s : St ν) (slot old nv : Nat) : St ν :=
+  let s1 := hipKxq s old nv
+  bumpCounts { s1 with regs := s1.regs.setIfInBounds slot nv } old
 
 /-- `Hll{4,6,8}Array::internalCouponUpdate` at the register level -/
 def hllUpdate (p : Params) (s : St ν) (c : Nat) : St ν :=
-  let nv := cValue p c
-  if s.tt = .h4 ∧ nv ≤ s.curMin then s else     -- HLL_4 quick rejection
-  let slot := cSlot p s.lgK c
-  let old := s.regs.getD slot 0
-  if old < nv then
-    let s1 := hipKxq s old nv
-    bumpCounts { s1 with regs := s1.regs.setIfInBounds slot nv } old
+  if s.tt = .h4 ∧ cValue p c ≤ s.curMin then s else     -- HLL_4 quick rejection
+  if s.regs.getD (cSlot p s.lgK c) 0 < cValue p c then
+    raiseReg s (cSlot p s.lgK c) (s.regs.getD (cSlot p s.lgK c) 0) (cValue p c)
   else s
 
 /-- `HllSketchImplFactory::promoteListOrSetToHll` -/
@@ -172,19 +174,25 @@ def promoteListToSet (p : Params) (s : St ν) : St ν :=
   let t : St ν := { s with mode := .set, tbl := Array.replicate (2^p.lgInitSet) 0, lgArr := p.lgInitSet }
   s.items.foldl (fun t c => (setAdd p t c).1) t
 
+/-- `CouponList::couponUpdate` for a nonzero coupon -/
+def listUpdate (p : Params) (s : St ν) (c : Nat) : St ν :=
+  if s.tbl.contains c then s else
+  let s1 := { s with tbl := placeFirst s.tbl c }
+  if s1.items.length = 2^s.lgArr then
+    if s.lgK < p.listToHllBelow then promoteToHll p s1 else promoteListToSet p s1
+  else s1
+
+/-- `CouponHashSet::couponUpdate` for a nonzero coupon -/
+def setUpdate (p : Params) (s : St ν) (c : Nat) : St ν :=
+  let r := setAdd p s c
+  if r.2 then promoteToHll p r.1 else r.1
+
 /-- `hll_sketch::coupon_update` -/
 def couponUpdate (p : Params) (s : St ν) (c : Nat) : St ν :=
   if c = 0 then s else
   match s.mode with
-  | .list =>
-    if s.tbl.contains c then s else
-    let s1 := { s with tbl := placeFirst s.tbl c }
-    if s1.items.length = 2^s.lgArr then
-      if s.lgK < p.listToHllBelow then promoteToHll p s1 else promoteListToSet p s1
-    else s1
-  | .set =>
-    let r := setAdd p s c
-    if r.2 then promoteToHll p r.1 else r.1
+  | .list => listUpdate p s c
+  | .set => setUpdate p s c
   | .hll => hllUpdate p s c
 
 /-- `HllSketchImpl::isEmpty` (HLL mode: as the code computes it from curMin / numAtCurMin) -/
